@@ -401,6 +401,8 @@ def run_property(pid, tier="quick", seed=0, update_ledger=False, verbose=False):
 
     # theory file behind the sum-congruence prover (rules E / Z): quick = hash of the checked file, thorough = re-check with lean
     theory = None
+    p = dict(p)
+    p.setdefault("theory", "lean/BigSum.lean")      # the sum prover (rules E / Z / P) may fire in any check
     if p.get("theory"):
         theory = check_theory(os.path.join(ROOT, p["theory"]), tier)
         if theory["status"] != "ok":
@@ -474,7 +476,7 @@ def run_property(pid, tier="quick", seed=0, update_ledger=False, verbose=False):
                "Python semantics as encoded (DESIGN.md 2.3): int = mathematical integers, float = mathematical reals (no rounding, no overflow, no NaN)",
                "heap model (DESIGN.md 2.4): tree-shaped - objects reachable from different parameters (or different cells of one container) are distinct unless a contract says `shares`; results of contract/external calls are fresh objects",
                "termination is not verified; exceptions other than those raised explicitly or declared by callee contracts (MemoryError, RecursionError, KeyboardInterrupt) are not modelled",
-               "finite sums: uninterpreted bigsum(lambda) with congruence and all-zero rules (lean/BigSum.lean, checked by Lean 4 + Mathlib); collections are finite",
+               "finite sums: uninterpreted bigsum(lambda) with congruence (E), all-zero (Z) and one-point (P) rules (lean/BigSum.lean: bigsum_congr, bigsum_zero, bigsum_single, checked by Lean 4 + Mathlib); collections are finite",
                "foreach summaries: loop bodies are executed once for a symbolic element; order independence is an obligation (foreach-side#k/*), iteration order of sets/dicts is otherwise unspecified"]
     assumptions = list(p.get("assumptions", [])) + [f"assumed/external contract: {a}" for a in sorted(assumed)]
     explanation = (f"{n_dis}/{n_obl} obligations discharged by a deductive VC check (unbounded, all inputs) over "
